@@ -484,3 +484,53 @@ def run(rep, tier):
     queue_rotations(rep, fb, 'R06.8')
     # ---- R06.7
     unique_names(rep, facts.FactBase(TUS + ['src/uscxml/transform/promela/PromelaCodeAnalyzer.cpp']), 'R06.7')
+    # ---- R06.12
+    sendid_ranges(rep, fb, 'R06.12')
+
+
+def sendid_ranges(rep, fb, rule='R06.12'):
+    """generated send ids (idlocation) and literal send ids (index of the literal) are compared by number in the emitted cancel: the
+    counter of generated ids must start, and restart after a wrap, from a value derived from the literal indices"""
+    rep.rule(rule, 'a <cancel> removes the event it names: in the emitted model a literal send id is the index of its literal and a generated one (idlocation) a counter value, compared by number - the counter is initialised and re-initialised from the largest literal index, never from a constant')
+    sites = []      # (function, literal node, rhs token)
+    defines = {}    # macro -> (function, statement root)
+    for f in fb.funcs.values():
+        if not f.q.startswith('uscxml::ChartToPromela::'):
+            continue
+        for n in f.walk():
+            if n['k'] != 'StringLiteral' or not isinstance(n.get('str'), str):
+                continue
+            for m in re.finditer(r'_lastSendId\s*=\s*(-?\w+)\s*([;+-]?)', n['str']):
+                if m.group(1) == '_lastSendId':
+                    continue
+                sites.append((f, n, m.group(1)))
+            m = re.search(r'#define\s+(\w+)\s*$', n['str'])
+            if m:
+                top = n
+                for a in f.ancestors(n):
+                    if a['k'] in ('CXXOperatorCallExpr', 'CXXMemberCallExpr', 'CallExpr') or a['k'] in facts.TRANSPARENT:
+                        top = a
+                    else:
+                        break
+                defines[m.group(1)] = (f, top)
+    rep.minimum(rule, len(sites), 2, 'emitted assignments of a start value to _lastSendId (declaration and wrap-around)')
+    for f, n, rhs in sites:
+        if re.fullmatch(r'-?\d+', rhs):
+            rep.fail(rule, '%s|_lastSendId = %s' % (f.q.split('::')[-1], rhs), locstr(n),
+                     'the counter of generated send ids is set to the constant %s: the ids 1, 2, 3.. it hands out are also indices of literals, so <cancel sendidexpr> of a generated id removes the event sent with a literal id of the same number (and the reverse)' % rhs)
+            continue
+        d = defines.get(rhs)
+        if d is None:
+            rep.fail(rule, '%s|_lastSendId = %s' % (f.q.split('::')[-1], rhs), locstr(n), 'the start value %s of the generated send ids is not defined by the writer' % rhs)
+            continue
+        df, top = d
+        # the value streamed after `#define M ` depends on the literal indices
+        defs = {d_['lid']: s_ for s_ in df.walk() if s_['k'] == 'DeclStmt' for d_ in s_.get('decls', []) if 'lid' in d_}
+        lids = {y['ref']['lid'] for y in sub(top) if y['k'] == 'DeclRefExpr' and 'lid' in y.get('ref', {})}
+        dep = any(y.get('callee', {}).get('q', '').endswith(('::indexForLiteral', '::getLiterals')) for y in sub(top))
+        for s_ in df.walk():
+            if s_['k'] in ('BinaryOperator', 'CompoundAssignOperator') and s_.get('op', '').endswith('=') and s_.get('op') not in ('==', '!=', '<=', '>=') and any(
+                    y.get('ref', {}).get('lid') in lids for y in sub(s_['c'][0])) and any(y.get('callee', {}).get('q', '').endswith(('::indexForLiteral', '::getLiterals')) for y in sub(s_['c'][1])):
+                dep = True
+        rep.check(dep, rule, '%s|_lastSendId = %s' % (f.q.split('::')[-1], rhs), locstr(n), 'the start value %s %s' % (
+            rhs, 'is computed from the indices of the literals' if dep else 'does NOT depend on the indices of the literals'))
